@@ -171,7 +171,8 @@ def _(prop, case, v):
 
 @rule("KF-C19-absent-key-unprocessed")
 def _(prop, case, v):
-    return v.get("sig") == "batchget-absent-unprocessed"
+    # every error of the per-key GetItem is folded into UnprocessedKeys: no stored item, unknown table, malformed key
+    return v.get("sig") in ("batchget-absent-unprocessed", "batchget-bad-key-unprocessed")
 
 
 @rule("KF-C17-v1-no-batchget")
